@@ -93,6 +93,7 @@ Lemma entry2_eq args : entry 2 args =
   | 1 :: n :: s :: m :: seed :: pk :: maxin :: tr => [zb (stress_spec n (s * m) seed pk maxin (dec_trace tr) out)]
   | 2 :: hnil :: fn :: cs => [zb (list_eqb out (recover_spec_out (bz hnil) fn cs))]
   | [3; n; s; m] => [zb (list_eqb out [s * m; 0; 1])]
+  | [5; n; rounds; extra] => [zb (list_eqb out [rounds * (2 * Z.of_nat (eff_limit n) + extra); 1; 1])]
   | [4; n; hk; vk; k] => [zb (list_eqb out [1; (if hk mod 4 =? 0 then 0 else k); Z.of_nat (eff_limit n); 1])]
   | _ => [BADCASE]
   end%Z.
